@@ -51,9 +51,11 @@ def gen_req(g, i):
 
 def gen_resp(g, i, method):
     kind = g.choice(["fixed", "fixed", "stream", "empty", "nolen-empty", "error"])
-    if method == "HEAD":
-        kind = "empty"
-    shape = {"kind": kind, "status": g.choice(["200 OK", "201 Created", "202 Accepted", "404 Not Found", "418 I'm a teapot"]), "pieces": [], "gaps": [],
+    bodyless = g.random() < 0.15        # statuses that never carry a body, with and without a declared length
+    if method == "HEAD" or bodyless:
+        kind = g.choice(["empty", "nolen-empty"])
+    shape = {"kind": kind, "status": g.choice(["204 No Content", "304 Not Modified"]) if bodyless and method != "HEAD" else
+             g.choice(["200 OK", "201 Created", "202 Accepted", "404 Not Found", "418 I'm a teapot"]), "pieces": [], "gaps": [],
              "headers": [[nm, header_value(g)] for nm in g.sample(["X-Out", "Etag", "X-Served-By", "Cache-Control"], g.randint(0, 3))],
              "pregap": g.choice([0, 0, 2])}
     if kind in ("fixed", "stream"):
@@ -86,7 +88,7 @@ class C30(Check):
     assumptions = ["inputs whose result the statement does not determine are not generated: GET/HEAD with a body, header values outside latin-1 "
                    "or with CR/LF or surrounding whitespace, multipart forms, a body for HEAD responses",
                    "server-side query / form arguments are read the way a WSGI application does: urllib.parse.parse_qsl(keep_blank_values=True)"]
-    required_probes = ["fargs", "data", "body", "qargs", "error", "stream", "unicode-path", "partial-delivery"]
+    required_probes = ["fargs", "data", "body", "qargs", "error", "stream", "unicode-path", "partial-delivery", "bodyless-without-length-then-another"]
     quick_runs = 8000
     thorough_runs = 400000
     shrink_fields = ["schedule", "reqs"]
@@ -126,6 +128,9 @@ class C30(Check):
         for r in resps:
             if r["kind"] in ("error", "stream"):
                 out.probe(r["kind"])
+        for i, (rq, rs) in enumerate(zip(plan["reqs"], plan["resps"])):
+            if rs["kind"] == "nolen-empty" and (rq["method"] == "HEAD" or rs["status"][:3] in ("204", "304")) and i + 1 < len(plan["reqs"]):
+                out.probe("bodyless-without-length-then-another")
         app = PlanApp(resps)
         with http_world(cap=plan["cap"]) as net:
             duo = Duo(net, app, bs_c=plan["bs"], bs_s=plan["bs"])
